@@ -740,6 +740,9 @@ func (e *Env) call(x *CallE) Val {
 	if len(ps.Params) != len(x.Args) {
 		cfail("%s expects %d arguments", x.Fun, len(ps.Params))
 	}
+	if ps.BvAbs && !fx.bv {
+		return e.callAbstract(ps, x)
+	}
 	if ps.Rec || ps.AsFun {
 		return e.callRec(ps, x)
 	}
